@@ -1,7 +1,7 @@
 (* C03/Witness.v — non-vacuity of the hypotheses of the theorems in Properties.v (concrete runs that
    reach the Return with accepted data, failures, a partial batch, a persistent store), and the witness
    of shutdown_terminates_refuted. *)
-From Verif Require Import Common.Base C03.Model C03.Proofs C03.ProofsB C03.Proofs2 C03.Proofs3.
+From Verif Require Import Common.Base C03.Model C03.Proofs C03.ProofsB C03.Proofs2 C03.Proofs3 C03.Obs.
 
 Definition cfg_mem : cfg := mkCfg true false false false true 2 0 8.          (* memory queue, 2 consumers, retry *)
 Definition cfg_batch : cfg := mkCfg true false true true true 1 1 8.           (* memory queue, batcher with timer *)
@@ -104,3 +104,30 @@ Example ex_direct :
   | _, _ => False
   end.
 Proof. vm_compute. repeat split. Qed.
+
+(* no_new_attempt_without_queue is not vacuous: Send 2 had not reached the export function when Shutdown
+   returned (ready = 1); the only begin afterwards is that one, the back-off of Send 1 is released *)
+Example ex_direct_ready :
+  match run cfg_direct (init cfg_direct) [LSend 1; LBegin 0; LEnd 0 OTransient; LSend 2; LShutCall; LCloseStop; LNoQueue; LInnerShutdown; LReturn] with
+  | Some s1 =>
+      match run cfg_direct s1 [LBegin 1; LRetryStop 0; LDone 0] with
+      | Some s2 => pc s1 = PReturned /\ ready s1 = 1 /\ ready s2 = 0 /\ forallb ranked [LBegin 1; LRetryStop 0; LDone 0] = true /\
+                   finished s2 = [(1, RShutdown)]
+      | None => False
+      end
+  | None => False
+  end.
+Proof. vm_compute. repeat split. Qed.
+
+(* the observation-level property: a recorded schedule that satisfies it, one that violates clause 7 (request 2 was
+   accepted before Shutdown and never exported) *)
+Example ex_obs_ok :
+  prop_viol ([0;0;0;0;1;0;0;0;0;0;1],
+             [((0,1,1), [(0,[1]); (4,[1])]); ((0,2,1), [(4,[2])]); ((2,0,0), []);
+              ((1,1,0), [(0,[2]); (1,[1])]); ((1,2,0), [(1,[2]); (2,[]); (3,[])])], ([], 0)) = 0.
+Proof. vm_compute. reflexivity. Qed.
+Example ex_obs_lost :
+  prop_viol ([0;0;0;0;1;0;0;0;0;0;1],
+             [((0,1,1), [(0,[1]); (4,[1])]); ((0,2,1), [(4,[2])]); ((2,0,0), []);
+              ((1,1,0), [(1,[1]); (2,[]); (3,[])])], ([], 0)) = 7.
+Proof. vm_compute. reflexivity. Qed.
